@@ -20,7 +20,9 @@ PROPERTY = "C10"
 READY = True
 STATEFUL = True
 PARALLEL = False
-RULE = ("histories of 3-16 operations over 1-5 configurations (created, dropped with gc.collect(), made global), 1-2 enum "
+RULE = ("[phase 2: + lazy results requested under one configuration and consumed later / partly / by interleaved "
+        "iterators (`res`/`str`/`iter`/`next`), the implicit global configuration mixed with explicit ones, tables that "
+        "share a format object or are re-formatted after a printing, mixed-type enum values] histories of 3-16 operations over 1-5 configurations (created, dropped with gc.collect(), made global), 1-2 enum "
         "field types and 2-4 printable objects of all five kinds (pretty-printed data, tables incl. enum columns / limits / "
         "break lines / multi-line titles / truncation, record formats, git history reports over stub data, console help), "
         "each rendered coloured, without colours, line by line (before or after the whole text); streams: random, `reuse` "
@@ -44,7 +46,7 @@ ASSUMPTIONS = ["content has no ESC character (hypothesis of C10.strip_eq / nocol
                "are not generated"]
 THEOREMS = ["C10.cfg_ok", "C10.key_by_object", "C10.driver_alloc_valid", "C10.reachable_inv", "C10.layout_indep",
             "C10.history_free", "C10.history_free_steady", "C10.same_description_same_output", "C10.nocolor_no_esc", "C10.strip_eq",
-            "C10.lines_eq_whole", "C10.gp_synced"]
+            "C10.lines_eq_whole", "C10.lazy_lines_history_free", "C10.lazy_whole_history_free", "C10.gp_synced"]
 
 ESC = "\x1b"
 
@@ -1901,8 +1903,14 @@ LEVEL_TEXT = ("Kernel-checked for all histories (any operations, any allocator r
               "breaks the proofs, and its failing history is a checked example. The layout itself (shapes) is not modelled: "
               "that the real renderings factor through shape + palettes is established by the differential run. Also proved: "
               "gp_synced (the synced global_palette always shows the global configuration in force) and driver_alloc_valid "
-              "(the driver's allocator is one of the allocators the theorems quantify over).")
-LEVEL_NOTE = ("Correspondence only (not theorems): model = code on the generated histories; shapes come from the real code run "
+              "(the driver's allocator is one of the allocators the theorems quantify over). Phase 2: lazy results and line "
+              "iterators are part of the histories; lazy_lines_history_free / lazy_whole_history_free prove that what an "
+              "iterator or the first str() gives, whenever and however interleaved, is the pure painting of the object's "
+              "lines for the configuration the result was requested for (a held palette is never collected nor overwritten).")
+LEVEL_NOTE = ("Correspondence + oracle only: the layout state of a table (column widths negotiated at the first printing, "
+              "shared / cloned format objects, re-formatting) is not in the Lean model — a fresh copy of the object with the same "
+              "format history supplies the shape, so a width that leaks between tables or through a re-format shows as a model / "
+              "code difference and as an oracle failure (seed C10-m5), not as a failed proof. Also correspondence only (not theorems): model = code on the generated histories; shapes come from the real code run "
               "with tagging palettes; the only renderings outside the history theorems are coloured renderings that register a palette class in "
               "a configuration with dangling references (known finding late_resolution, checked counter-example in Props/C10.lean). Trusted: Lean kernel (propext, Classical.choice, Quot.sound), translator/adapter/oracle in harness/c10.py.")
 TECHNIQUE = ("Lean 4: explicit heap of palette addresses with adversarial allocator and collector, state invariant proved "
